@@ -191,8 +191,9 @@ std::vector<CaseDef> gCases;
 void build(Ctx& ctx)
 {
 	gCases.clear();
-	std::vector<uint32_t> hs = { 0, 32, 64, 96 };
-	if (ctx.thorough) { hs.push_back(128); hs.push_back(2048); }
+	// 2016 / 2048 / 2080 rows: the pixel section length 32*h passes 65535 (a 16-bit length computation shows there)
+	std::vector<uint32_t> hs = { 0, 32, 64, 96, 2016, 2048, 2080 };
+	if (ctx.thorough) { hs.push_back(128); hs.push_back(4096); hs.push_back(65536); hs.push_back(131072 + 32); }
 	for (uint32_t h : hs) for (int pal = 0; pal < 3; ++pal) for (int pix = 0; pix < 2; ++pix) gCases.push_back({ 0, h, pal, pix });
 	gCases.push_back({ 1, 0, 0, 0 });
 	gCases.push_back({ 2, 0, 0, 0 });
